@@ -1,8 +1,8 @@
-\* thorough: ALL graphs on <= 4 modules (no self import), at most one body that throws or awaits
+\* thorough: ALL graphs on <= 4 modules (no self import), at most one body with a top-level await
 CONSTANTS
   MaxN = 4
   MaxEdges = 12
-  Kinds <- KindsTri
+  Kinds <- KindsSA
   Binds <- BindsOne
   SelfLoops = FALSE
   MaxSpecial = 1
